@@ -6,12 +6,12 @@ package ketoapi
 
 // package-level error values are initialised once and never reassigned (ASSUMED; a store to
 // one of them would be a failing obligation)
-//@ globalinv ketoapi.ErrMalformedInput: val != nil && hcode(*val) == 400
-//@ globalinv ketoapi.ErrDroppedSubjectKey: val != nil && hcode(*val) == 400
-//@ globalinv ketoapi.ErrDuplicateSubject: val != nil && hcode(*val) == 400
-//@ globalinv ketoapi.ErrIncompleteSubject: val != nil && hcode(*val) == 400
-//@ globalinv ketoapi.ErrNilSubject: val != nil && hcode(*val) == 400
-//@ globalinv ketoapi.ErrIncompleteTuple: val != nil && hcode(*val) == 400
+//@ globalinv ketoapi.ErrMalformedInput: val != nil && hcode(*val) == 400 && errstatus(val) == 400
+//@ globalinv ketoapi.ErrDroppedSubjectKey: val != nil && hcode(*val) == 400 && errstatus(val) == 400
+//@ globalinv ketoapi.ErrDuplicateSubject: val != nil && hcode(*val) == 400 && errstatus(val) == 400
+//@ globalinv ketoapi.ErrIncompleteSubject: val != nil && hcode(*val) == 400 && errstatus(val) == 400
+//@ globalinv ketoapi.ErrNilSubject: val != nil && hcode(*val) == 400 && errstatus(val) == 400
+//@ globalinv ketoapi.ErrIncompleteTuple: val != nil && hcode(*val) == 400 && errstatus(val) == 400
 
 // A message as it comes from the wire (assumption T8): a oneof wrapper that is present
 // wraps a non-nil pointer and, for subject sets, a non-nil set.
@@ -40,6 +40,7 @@ package ketoapi
 //@   modifies r.Namespace, r.Object, r.Relation, r.SubjectID, r.SubjectSet
 //@   ensures result1 == nil ==> result0 == r
 //@   ensures[C13] nil-subject-is-an-error: result1 == nil ==> (r.SubjectID != nil || r.SubjectSet != nil)
+//@   ensures[C13] error-class: result1 != nil ==> errstatus(result1) == 400
 
 //@ func (*RelationTuple).FromProto
 //@   props C13 C18 C08
